@@ -835,6 +835,76 @@ pub fn macro_differential(ts: &[Tree], col: &mut Collector) -> u64 {
     cases
 }
 
+/// Leaves that OVERRIDE `System::setup` / `System::dispose` (the harness leaves of the tree exploration do not: there
+/// the library's default hook is what is exercised): setting up a tree runs every leaf's own hook exactly once, in
+/// every shape - a lone leaf, par / seq of 2..3, nested, built with `new` / `with` and with the macros.
+fn overridden_hook_sweep(col: &mut Collector) -> u64 {
+    use std::sync::atomic::{AtomicU32, Ordering};
+    struct Ov(Arc<AtomicU32>, Arc<AtomicU32>);
+    impl<'a> shred::System<'a> for Ov {
+        type SystemData = ();
+        fn run(&mut self, _: ()) {
+            self.1.fetch_add(1, Ordering::SeqCst);
+        }
+        fn setup(&mut self, _w: &mut World) {
+            self.0.fetch_add(1, Ordering::SeqCst);
+        }
+    }
+    let was = rayon::verif::controlled();
+    rayon::verif::set_controlled(false);
+    let pool = Arc::new(rayon::ThreadPoolBuilder::new().num_threads(2).build().unwrap());
+    let mut cases = 0;
+    for shape in 0..7u8 {
+        cases += 1;
+        let n = [1usize, 2, 2, 3, 3, 3, 3][shape as usize];
+        let su: Vec<Arc<AtomicU32>> = (0..n).map(|_| Arc::new(AtomicU32::new(0))).collect();
+        let ru: Vec<Arc<AtomicU32>> = (0..n).map(|_| Arc::new(AtomicU32::new(0))).collect();
+        let mk = |i: usize| Ov(su[i].clone(), ru[i].clone());
+        let label = ["leaf", "par[a, b]", "seq[a, b]", "par[seq[a, b], c]", "seq[par[a, b], c]", "par![seq![a, b], c]", "seq![a, par![b, c]]"][shape as usize];
+        let r = catch_unwind(AssertUnwindSafe(|| {
+            let mut world = World::empty();
+            macro_rules! go {
+                ($t:expr) => {{
+                    let mut ps = ParSeq::new($t, pool.clone());
+                    ps.setup(&mut world);
+                    ps.dispatch(&world);
+                }};
+            }
+            match shape {
+                0 => go!(mk(0)),
+                1 => go!(Par::new(mk(0)).with(mk(1))),
+                2 => go!(Seq::new(mk(0)).with(mk(1))),
+                3 => go!(Par::new(Seq::new(mk(0)).with(mk(1))).with(mk(2))),
+                4 => go!(Seq::new(Par::new(mk(0)).with(mk(1))).with(mk(2))),
+                5 => go!(shred::par![shred::seq![mk(0), mk(1),], mk(2),]),
+                _ => go!(shred::seq![mk(0), shred::par![mk(1), mk(2),],]),
+            }
+        }));
+        let s: Vec<u32> = su.iter().map(|c| c.load(Ordering::SeqCst)).collect();
+        let rn: Vec<u32> = ru.iter().map(|c| c.load(Ordering::SeqCst)).collect();
+        let bad = if let Err(p) = &r {
+            Some(format!("panicked: {}", crate::sched::payload_str(&**p)))
+        } else if s.iter().any(|x| *x != 1) {
+            Some(format!("the leaves' own setup hooks ran {:?} times, expected once each", s))
+        } else if rn.iter().any(|x| *x != 1) {
+            Some(format!("the leaves ran {:?} times in one dispatch, expected once each", rn))
+        } else {
+            None
+        };
+        if let Some(e) = bad {
+            col.add(Finding {
+                prop: "C16".into(),
+                sig: "setup-missed-leaf".into(),
+                msg: format!("tree {} of leaves that override System::setup: {}", label, e),
+                replay: json!({"kind":"tree-overridden-hooks","shape":shape}),
+                size: n,
+            });
+        }
+    }
+    rayon::verif::set_controlled(was);
+    cases
+}
+
 /// Leaves whose data types are DISTINCT types with the SAME `type_name` (items declared in two blocks of one
 /// function, as a macro expanded twice does): what a node reports and what `Par::with` rejects follows the types.
 fn same_name_sweep(col: &mut Collector) -> (u64, u64) {
@@ -1145,6 +1215,7 @@ pub fn check_par_with(alpha: &[(Vec<u8>, Vec<u8>)], col: &mut Collector) -> (u64
         cases += x;
         panics += y;
     }
+    cases += overridden_hook_sweep(col);
     // long access lists: the contested resource sits behind n entries naming an unrelated resource, either in
     // one leaf's declared list (duplicates are legal) or spread over the leaves of a seq child
     for n in 0..=40usize {
